@@ -1,7 +1,7 @@
 CONSTANTS
-  AlphaOf <- FullAlpha
+  AlphaOf <- LineAlpha
   MaxLenOf <- Len4
-  DelimSet <- AllDelims
+  DelimSet <- LineDelims
 INIT Init
 NEXT Next
 INVARIANTS InvPartition InvSelection InvNth InvRender EmitMenu EmitLine
